@@ -186,6 +186,10 @@ func (s *State) Iterate(fn func(key []byte, value []byte) bool) (stopped bool) {
 		if err != nil {
 			continue
 		}
+		// a key deleted in the open session or block is not part of the state any more
+		if value == nil {
+			continue
+		}
 		stop := fn(key, value)
 		if stop {
 			return true
@@ -204,6 +208,10 @@ func (s *State) IterateRange(start, end []byte, ascending bool, fn func(key, val
 	for _, key := range keys {
 		value, err := s.Get(key)
 		if err != nil {
+			continue
+		}
+		// a key deleted in the open session or block is not part of the state any more
+		if value == nil {
 			continue
 		}
 		stop := fn(key, value)
